@@ -53,6 +53,13 @@ def check(chk, repo):
     if not okq:
         return
     Q, i, x = nlp
+    # the samples examined are the caller's samples, as given: the query graph is built from the parameter itself
+    qargs = dict(zip(["X", "Y", "I"], Q[2]))
+    qargs.update(dict(Q[3]))
+    rep.fn("SCAN-query-features", fn, "the query graph is built from the caller's array unchanged",
+           qargs.get("X") == ("param", fn.params[1]),
+           f"the query nodes are built from '{show(qargs.get('X')) if qargs.get('X') else '?'}' instead of the argument '{fn.params[1]}': "
+           "a converted / rounded / re-typed copy is classified, not the sample that was passed", line=per.line)
     n_nodes = ("attr", G, "n_nodes")
     sizes = [n_nodes, ("call", ("builtin", "len"), (("attr", G, "nodes"),), ()),
              ("call", ("builtin", "len"), (("attr", G, "idx_nodes"),), ())]
